@@ -191,6 +191,107 @@ def r7(ctx, prog):
         ctx.ob('C03.R7', 'Loop::%s|agree' % m, sa == sb, 'signatures %s' % ('agree: %s' % sa if sa == sb else 'differ: epoll=%s select=%s' % (sa, sb)), where=fa.loc(fa.body))
 
 
+KINDS = (('read', 1, 'read_event_num', 1), ('write', 2, 'write_event_num', 4), ('except', 4, 'except_event_num', 8))   # name, tbox bit, counter, epoll bit
+EPOLLHUP = 16
+
+
+def _cond_fields_consts(f, cond):
+    flds = {x.split('::')[-1] for x in q.subtree_fields(f, cond)}
+    consts = {f.stmts[x].get('cv') for x in f.walk(cond) if f.stmts[x].get('cv') is not None}
+    return flds, consts
+
+
+def r8(ctx, prog):
+    ctx.rule('C03.R8', 'A11+A12 interest-set table: per event kind, enable()/disable() step the matching counter under the matching bit of events_; the epoll mask '
+             'and the select sets request a kind iff its counter is positive; a ready kernel bit is translated to the matching tbox bit (HUP -> read); the '
+             'epoll_ctl operation follows the old/new mask; both back-ends agree', floor=20)
+    for be, (ev, lp, sd) in BACKENDS.items():
+        for m, op in (('enable', '++'), ('disable', '--')):
+            f = prog.fn1(ev + '::' + m)
+            for name, bit, ctr, ebit in KINDS:
+                steps = [st for st in f.stmts if st and st['k'] == 'UnaryOperator' and st.get('op') == op and (f.field_of(st['ch'][0]) or '').endswith('::' + ctr)]
+                ok = len(steps) == 1
+                if ok:
+                    g = [(c, k) for c, k, b in f.cfg.controlling_branches(q.pt(f, steps[0]))]
+                    ok = any(k == 0 and 'events_' in _cond_fields_consts(f, c)[0] and bit in _cond_fields_consts(f, c)[1] and f.s(f.strip_casts(c)).get('op') == '&' for c, k in g)
+                    # and no other kind's bit gates it
+                    ok = ok and not any('events_' in _cond_fields_consts(f, c)[0] and (_cond_fields_consts(f, c)[1] & {1, 2, 4}) - {bit} for c, k in g)
+                wrong = [st for st in f.stmts if st and st['k'] == 'UnaryOperator' and st.get('op') in ('++', '--') and st.get('op') != op and (f.field_of(st['ch'][0]) or '').endswith('::' + ctr)]
+                ctx.ob('C03.R8', '%s|%s-counter' % (f.name, name), ok and not wrong, '%s%s exactly once, under events_ & %d' % (op, ctr, bit) if ok and not wrong else
+                       '%s() does not step %s exactly once under the %s bit of events_: the descriptor\'s interest set drifts from its enabled events' % (m, ctr, name), where=f.loc(f.body))
+    # epoll mask from counters
+    f = prog.fn1(BACKENDS['epoll'][0] + '::reloadEpoll')
+    for name, bit, ctr, ebit in KINDS:
+        sets = [st for st in f.stmts if st and st['k'] == 'CompoundAssignOperator' and st.get('op') == '|=' and f.s(f.strip_casts(st['ch'][1])).get('cv') == ebit]
+        ok = len(sets) == 1
+        if ok:
+            g = [(c, k) for c, k, b in f.cfg.controlling_branches(q.pt(f, sets[0]))]
+            ok = len(g) == 1 and any(q.edge_holds(f, c, k, 'd_.' + ctr, '>', '0') for c, k in g)
+        ctx.ob('C03.R8', '%s|mask-%s' % (f.name, name), ok, 'epoll bit %d requested iff %s > 0' % (ebit, ctr) if ok else
+               'the epoll mask does not request bit %d exactly when %s > 0' % (ebit, ctr), where=f.loc(sets[0]['i'] if sets else f.body))
+    ctl = [st for st in f.calls() if st.get('callee') == 'epoll_ctl']
+    ops = {}
+    for c in ctl:
+        opv = f.s(f.strip_casts(c['args'][1])).get('cv')
+        rel = []
+        for cond, k, b in f.cfg.controlling_branches(q.pt(f, c)):
+            r = q.edge_relation(f, cond, k)
+            if r:
+                rel.append('%s%s%s' % r)
+        ops[opv] = sorted(rel)
+    want = {1: ['new_events!=0', 'old_events==0'], 3: ['new_events!=0', 'old_events!=0'], 2: ['new_events==0', 'old_events!=0']}
+    ctx.ob('C03.R8', '%s|ctl-op' % f.name, ops == want, 'EPOLL_CTL_ADD when the old mask was empty, MOD when both are non-empty, DEL when the new mask is empty' if ops == want else
+           'epoll_ctl operation does not follow the old/new mask: %s' % ops, where=f.loc(f.body))
+    # select sets from counters
+    f = prog.fn1(BACKENDS['select'][1] + '::fillFdSets')
+    for name, bit, ctr, ebit in KINDS:
+        ifs = [st for st in f.stmts if st and st['k'] == 'IfStmt' and any(p_ == name + '_set.fds_bits' or p_.startswith(name + '_set') for p_ in q.subtree_paths(f, st['then']))]
+        ok = len(ifs) == 1 and q.edge_holds(f, ifs[0]['cond'], 0, 'data.' + ctr, '>', '0')
+        ctx.ob('C03.R8', '%s|set-%s' % (f.name, name), ok, 'descriptor put into %s_set iff %s > 0' % (name, ctr) if ok else
+               'the %s set is not filled exactly when %s > 0' % (name, ctr), where=f.loc(ifs[0]['i'] if ifs else f.body))
+    # ready bits -> tbox bits
+    f = prog.fn1(BACKENDS['epoll'][0] + '::OnEventCallback')
+    got = set()
+    for st in f.stmts:
+        if st and st['k'] == 'CompoundAssignOperator' and st.get('op') == '|=' and f.path(st['ch'][0]) == 'tbox_events':
+            tb = f.s(f.strip_casts(st['ch'][1])).get('cv')
+            for cond, k, b in f.cfg.controlling_branches(q.pt(f, st)):
+                cs = f.s(f.strip_casts(cond))
+                if cs and cs['k'] == 'BinaryOperator' and cs.get('op') == '&' and k == 0:
+                    kb = f.s(f.strip_casts(cs['ch'][1])).get('cv')
+                    got.add((kb, tb))
+    want = {(1, 1), (4, 2), (8, 4), (EPOLLHUP, 1)}
+    ctx.ob('C03.R8', '%s|ready-translation' % f.name, got == want, 'EPOLLIN->read, EPOLLOUT->write, EPOLLERR->except, EPOLLHUP->read' if got == want else
+           'kernel-to-tbox event translation is %s, expected %s' % (sorted(got), sorted(want)), where=f.loc(f.body))
+    # select: FD_ISSET(x_set) -> positional flag of SelectFdEvent::OnEventCallback -> tbox bit
+    f = prog.fn1(BACKENDS['select'][1] + '::runLoop')
+    cb = prog.fn1(BACKENDS['select'][0] + '::OnEventCallback')
+    calls = [st for st in f.calls() if st.get('usr') == cb.usr]
+    got = set()
+    if len(calls) == 1:
+        for pos, a in enumerate(calls[0]['args'][:3]):
+            x = f.s(f.strip_casts(a))
+            which = None
+            if x and x['k'] == 'DeclRefExpr' and x.get('dk') == 'Var':
+                for dfn in rd.local_defs(f, x['d']):
+                    if dfn['rhs'] is not None:
+                        ps = ' '.join(q.subtree_paths(f, dfn['rhs']))
+                        for name, bit, ctr, ebit in KINDS:
+                            if name + '_set' in ps:
+                                which = name
+            par = cb.params[pos]['d']
+            for st in cb.stmts:
+                if st and st['k'] == 'CompoundAssignOperator' and st.get('op') == '|=' and cb.path(st['ch'][0]) == 'tbox_events':
+                    tb = cb.s(cb.strip_casts(st['ch'][1])).get('cv')
+                    for cond, k, blk in cb.cfg.controlling_branches(q.pt(cb, st)):
+                        t = q.simple_test(cb, cond)
+                        if t and t[0] == par and (t[1] == 'nz') == (k == 0):
+                            got.add((which, tb))
+    want = {('read', 1), ('write', 2), ('except', 4)}
+    ctx.ob('C03.R8', '%s|ready-translation' % f.name, got == want, 'read_set->read, write_set->write, except_set->except (through the positional flags of OnEventCallback)' if got == want else
+           'select ready-set translation is %s, expected %s' % (sorted(got, key=str), sorted(want)), where=f.loc(calls[0]['i'] if calls else f.body))
+
+
 def run(ctx):
     prog = extract('ALL' if ctx.tier == 'thorough' else SCOPE)
     ctx.guard(r1, ctx, prog)
@@ -199,4 +300,5 @@ def run(ctx):
     ctx.guard(r4, ctx, prog)
     ctx.guard(r5, ctx, prog)
     ctx.guard(r7, ctx, prog)
+    ctx.guard(r8, ctx, prog)
     return prog
